@@ -4,7 +4,8 @@
    Mirrors paramiko/channel.py: close, shutdown, _send (send / send_stderr), recv,
    _handle_eof, _handle_close, _request_failed, _window_adjust, _feed, _unlink,
    _send_eof, _close_internal, _set_closed, _check_add_window, _wait_for_send_window
-   (with timeout 0.0, i.e. non-blocking), and the channel dispatch of
+   (timeout 0.0 = non-blocking, or timeout None = a writer that finds a zero window waits on
+   out_buffer_cv until _window_adjust / _set_closed notify it), and the channel dispatch of
    paramiko/transport.py (Transport.run: `chan = self._channels.get(chanid)`;
    _unlink_channel).
 
@@ -12,6 +13,8 @@
    the code between two switch points, a switch point being
      - `self.lock.acquire()` of the channel lock,
      - a call of `transport._send_user_message(m)` (one wire message),
+     - `out_buffer_cv.wait()` (releases the lock; the thread can only continue after a
+       notify_all() and then re-acquires the lock),
      - an access to shared channel state made WITHOUT the lock before the first
        acquire of an operation (shutdown(0|2) writing eof_received, _unlink reading
        closed, recv reading the in-buffer, the transport's channel-map lookup).
